@@ -568,6 +568,12 @@ func (o *operation) handle() {
 		}
 	}
 
+	// The URL is about to be rewritten for the backend. The client's query
+	// string is parsed lazily (and the result kept); parse it now, because
+	// the request message may be completed from it only later, when the
+	// backend reads the body.
+	o.queryValues()
+
 	var skipBody bool
 	if serverRequestBuilder != nil {
 		var hasBody bool
